@@ -85,7 +85,10 @@ def text_and_attr_values(root) -> list[str]:
     return vals
 
 
-HOSTILE = ['a&b', 'x<y>z', 'q"uo\'te', ']]>', 'u n', '</Title><evil/>', '&amp;', '"/><x a="', '$Number$', 'L' * 4000]
+HOSTILE = ['a&b', 'x<y>z', 'q"uo\'te', ']]>', 'u n', '</Title><evil/>', '&amp;', '"/><x a="', '$Number$',
+           'Caf&eacute; &nbsp;&#60;b&#62;', '&#x3c;Period/&#x3e;', 'L' * 4000]
+# strings that are always tried in the quick tier: markup that would add elements, and text shaped like entity / character references
+ESSENTIAL = ['</Title><evil/>', 'Caf&eacute; &nbsp;&#60;b&#62;']
 BENIGN = 'benign'
 
 
@@ -205,7 +208,7 @@ def main(tier_: str) -> int:
                         pair_urls.append(f'/dash/{mode}/bbb/{tmpl}?{o}')
                     if mode != 'odvod':
                         pair_urls.append(f'/mps/{mode}/testmps/{tmpl}')
-            for hv in (HOSTILE if tier_ == 'thorough' else rng.sample(HOSTILE[:-1], 4) + HOSTILE[-1:]):
+            for hv in (HOSTILE if tier_ == 'thorough' else ESSENTIAL + rng.sample([h for h in HOSTILE[:-1] if h not in ESSENTIAL], 3) + HOSTILE[-1:]):
                 for url in (pair_urls if tier_ == 'thorough' else rng.sample(pair_urls, 10)):
                     variants = []
                     for val in (hv, BENIGN):
